@@ -13,7 +13,7 @@ A base recipe is a name from BASES (optionally `name:param`); `build(name, env)`
 import collections, decimal, functools, importlib, inspect, math, operator, os, re, copy, sys, types, unittest, weakref
 
 ZOO_SRC = r'''
-import sys, os, collections, functools, unittest
+import sys, os, collections, dataclasses, functools, unittest
 API_SUFFIX = os.path.join('malt', 'impl', 'api.py')
 GLOG = []
 
@@ -509,6 +509,31 @@ class FailC(object):
         return r
 
 
+@dataclasses.dataclass
+class DataCallable(object):
+    """a default dataclass defines __eq__ and therefore has __hash__ = None: an unhashable callable object"""
+    log: list
+    tag: str = 'OBJ'
+
+    def __call__(self, a=0, b=2, *rest, k=3, **kw):
+        conv = _probe()
+        if a:
+            r = ('T', self.tag, a, b, rest, k, sorted(kw.items()))
+        else:
+            r = ('F', self.tag, a, b, rest, k, sorted(kw.items()))
+        self.log.append(('run', conv) + r)
+        return r
+
+
+class HashRaises(C):
+    """a callable object whose __hash__ raises"""
+    def __hash__(self):
+        raise TypeError('unhashable on purpose')
+
+    def __eq__(self, other):
+        return self is other
+
+
 def make_fail_class(log):
     class K(FailC):
         CLSLOG = log
@@ -999,6 +1024,14 @@ def build(name, env, log):
         o = Z.Unhash(log, 'OBJ')
         return Built(o, default_facts(kind='callableObject', cacheable=False, ent=ent(mod=M, call=method_ent(M, M))),
                      self_val='OBJ', binds=True, target_ents=[Z.C.__call__])
+    if base == 'callobj_dataclass':
+        o = Z.DataCallable(log)
+        return Built(o, default_facts(kind='callableObject', cacheable=False, ent=ent(mod=M, call=method_ent(M, M))),
+                     self_val='OBJ', binds=True, target_ents=[Z.DataCallable.__call__])
+    if base == 'callobj_hash_raises':
+        o = Z.HashRaises(log, 'OBJ')
+        return Built(o, default_facts(kind='callableObject', cacheable=False, ent=ent(mod=M, call=method_ent(M, M))),
+                     self_val='OBJ', binds=True, target_ents=[Z.C.__call__])
     if base == 'callobj_slots':
         o = Z.Slots(log)
         return Built(o, default_facts(kind='callableObject', cacheable=False, ent=ent(mod=M, call=method_ent(M, M))),
@@ -1139,7 +1172,7 @@ BASES_STATIC = [
     'bound', 'unbound', 'classm', 'classm_inst', 'staticm', 'bound_gen', 'bound_testcase', 'nt_sub_method', 'nt_inherited',
     'bound_allowcls:malt.c13fake', 'bound_sub_inherit:malt.c13fake', 'bound_sub_override:malt.c13fake',
     'callobj', 'callobj_allowcls:malt.c13fake', 'callobj_allowcall:malt.c13fake', 'callobj_gen', 'callobj_forelse',
-    'callobj_unhash_fail', 'callobj_unhash', 'callobj_slots', 'callobj_native', 'method_descriptor', 'noncallable', 'wrapt_fn',
+    'callobj_unhash_fail', 'callobj_unhash', 'callobj_dataclass', 'callobj_hash_raises', 'callobj_slots', 'callobj_native', 'method_descriptor', 'noncallable', 'wrapt_fn',
     'class_user', 'class_nt', 'class_nt_sub', 'class_meta', 'class_stdlib',
     'known_member:re.match', 'known_member:copy.deepcopy', 'known_member:collections.namedtuple', 'known_member:inspect.isfunction',
     'numpy_fn',
